@@ -541,12 +541,47 @@ func c05CloseDiscipline(c *Ctx, r *Report, units []*bodyUnit, rulePrefix string)
 	for changed := true; changed; {
 		changed = false
 		for _, u := range units {
-			if isTestSupportPkg(u.Pkg.PkgPath) || u.Lit != nil || u.Decl.Recv == nil || len(u.Decl.Recv.List) != 1 || len(u.Decl.Recv.List[0].Names) != 1 {
+			if isTestSupportPkg(u.Pkg.PkgPath) || u.Lit != nil {
 				continue
 			}
 			info := u.Pkg.TypesInfo
 			obj, _ := info.Defs[u.Decl.Name].(*types.Func)
 			if obj == nil || senderFns[obj] != nil {
+				continue
+			}
+			if u.Decl.Recv == nil {
+				// a private plain function that calls a sender helper on one of its parameters (the body of a
+				// reader goroutine moved into a named function that is handed the batcher)
+				if u.Decl.Name.IsExported() || u.Decl.Type.Params == nil {
+					continue
+				}
+				params := map[types.Object]bool{}
+				for _, f := range u.Decl.Type.Params.List {
+					for _, nm := range f.Names {
+						params[info.Defs[nm]] = true
+					}
+				}
+				inspectNoLit(u.Decl.Body, func(n ast.Node) bool {
+					if _, isGo := n.(*ast.GoStmt); isGo {
+						return false
+					}
+					call, ok := n.(*ast.CallExpr)
+					if !ok {
+						return true
+					}
+					f := calleeFunc(info, call)
+					if f == nil || senderFns[f] == nil || senderFns[obj] != nil {
+						return true
+					}
+					if se, ok := call.Fun.(*ast.SelectorExpr); ok && params[identObj(info, se.X)] {
+						senderFns[obj] = senderFns[f]
+						changed = true
+					}
+					return true
+				})
+				continue
+			}
+			if len(u.Decl.Recv.List) != 1 || len(u.Decl.Recv.List[0].Names) != 1 {
 				continue
 			}
 			recvObj := info.Defs[u.Decl.Recv.List[0].Names[0]]
